@@ -342,6 +342,10 @@ def decide_obligation(ob, tier, pool=None):
     if ob.get("paths_truncated"):
         o.result, o.detail = C.UNDECIDED, "path enumeration truncated (more than 4096 decision vectors)"
         return o
+    if os.environ.get("PV_POW_REWRITE") == "1":   # experimental (DESIGN.md 9.4, C16): not used by any registered check
+        from . import powrw
+        o.extra["power_normalisation_rules"] = powrw.rewrite(ob)
+        o.extra["dag_nodes_after_normalisation"] = len(ob["nodes"])
     nodes = ob["nodes"]
     goal_names = [g[0] for g in ob["paths"][0]["goals"]]
     cap = CAP[tier]
